@@ -254,20 +254,27 @@ pub struct ShardEnd {
 }
 
 /// Run this very monitor in `nshards` child processes (each with `threads` worker threads) and
-/// merge their partial results. Children get VERIF_SHARD=k/n and VERIF_PARTIAL=<file>; extra
-/// environment (sanitizer options, LD_PRELOAD, another executable) can be supplied.
-pub fn run_sharded(ctx: &Ctx, nshards: u64, threads: usize, exe: Option<&str>, extra_env: &[(String, String)], tag: &str) -> (Local, Vec<ShardEnd>) {
+/// merge their partial results. Children get VERIF_SHARD=k/n, VERIF_PARTIAL=<file> and
+/// VERIF_LEG=<tag>. `prefix` is the command to run (program + leading arguments, e.g. valgrind
+/// and its options followed by the executable); empty = this executable. A wall-clock watchdog
+/// kills children after `timeout_s`; that is reported as an abnormal end (inconclusive), never
+/// as a violation.
+pub fn run_sharded_with(ctx: &Ctx, nshards: u64, threads: usize, prefix: &[String], extra_env: &[(String, String)], tag: &str, timeout_s: u64) -> (Local, Vec<ShardEnd>) {
     use std::os::unix::process::ExitStatusExt;
-    let exe = exe.map(String::from).unwrap_or_else(|| std::env::current_exe().unwrap().to_string_lossy().to_string());
+    let me = std::env::current_exe().unwrap().to_string_lossy().to_string();
+    let (prog, lead): (String, Vec<String>) = if prefix.is_empty() { (me, vec![]) } else { (prefix[0].clone(), prefix[1..].to_vec()) };
     let dir = format!("{}/.partials", ctx.out_dir);
     let _ = std::fs::create_dir_all(&dir);
     let mut children = vec![];
     for k in 0..nshards {
-        let partial = format!("{dir}/{}-{tag}-{}-{k}.json", ctx.property, std::process::id());
-        let wal = format!("{dir}/{}-{tag}-{}-{k}.wal", ctx.property, std::process::id());
+        let base = format!("{dir}/{}-{tag}-{}-{k}", ctx.property, std::process::id());
+        let partial = format!("{base}.json");
+        let wal = format!("{base}.wal");
+        let errf = format!("{base}.stderr");
         let _ = std::fs::remove_file(&partial);
-        let mut cmd = std::process::Command::new(&exe);
-        cmd.args([ctx.property.as_str(), ctx.tier.name()])
+        let mut cmd = std::process::Command::new(&prog);
+        cmd.args(&lead)
+            .args([ctx.property.as_str(), ctx.tier.name()])
             .env("VERIF_SEED", ctx.seed.to_string())
             .env("VERIF_SHARD", format!("{k}/{nshards}"))
             .env("VERIF_THREADS", threads.to_string())
@@ -275,30 +282,47 @@ pub fn run_sharded(ctx: &Ctx, nshards: u64, threads: usize, exe: Option<&str>, e
             .env("VERIF_PARTIAL", &partial)
             .env("VERIF_WAL", &wal)
             .env("VERIF_LEG", tag)
-            .stdout(std::process::Stdio::null())
-            .stderr(std::process::Stdio::piped());
+            .stdout(std::process::Stdio::null());
+        match std::fs::File::create(&errf) {
+            Ok(f) => {
+                cmd.stderr(std::process::Stdio::from(f));
+            }
+            Err(_) => {
+                cmd.stderr(std::process::Stdio::null());
+            }
+        }
         for (a, b) in extra_env {
             cmd.env(a, b);
         }
-        match cmd.spawn() {
-            Ok(c) => children.push((k, partial, wal, Some(c))),
-            Err(_) => children.push((k, partial, wal, None)),
-        }
+        children.push((k, partial, wal, errf, cmd.spawn().ok()));
     }
+    let deadline = Instant::now() + std::time::Duration::from_secs(timeout_s);
     let mut merged = Local::default();
     let mut ends = vec![];
-    for (k, partial, wal, child) in children {
-        let (code, signal, tail) = match child {
-            None => (Some(127), None, "spawn failed".to_string()),
-            Some(c) => match c.wait_with_output() {
-                Ok(o) => {
-                    let t = String::from_utf8_lossy(&o.stderr);
-                    let tail: String = t.chars().rev().take(3000).collect::<String>().chars().rev().collect();
-                    (o.status.code(), o.status.signal(), tail)
+    for (k, partial, wal, errf, child) in children {
+        let (code, signal, timed_out) = match child {
+            None => (Some(127), None, false),
+            Some(mut c) => loop {
+                match c.try_wait() {
+                    Ok(Some(st)) => break (st.code(), st.signal(), false),
+                    Ok(None) => {
+                        if Instant::now() > deadline {
+                            let _ = c.kill();
+                            let _ = c.wait();
+                            break (None, None, true);
+                        }
+                        std::thread::sleep(std::time::Duration::from_millis(20));
+                    }
+                    Err(_) => break (Some(126), None, false),
                 }
-                Err(e) => (Some(126), None, e.to_string()),
             },
         };
+        let t = std::fs::read_to_string(&errf).unwrap_or_default();
+        let mut tail: String = t.chars().rev().take(6000).collect::<String>().chars().rev().collect();
+        if timed_out {
+            tail = format!("WATCHDOG: killed after {timeout_s} s. {tail}");
+        }
+        let _ = std::fs::remove_file(&errf);
         let mut ok = code == Some(0);
         match std::fs::read_to_string(&partial).ok().and_then(|t| serde_json::from_str::<Value>(&t).ok()) {
             Some(v) => merged.merge(Local::from_json(&v)),
@@ -311,6 +335,11 @@ pub fn run_sharded(ctx: &Ctx, nshards: u64, threads: usize, exe: Option<&str>, e
     merged.samples.truncate(4);
     merged.violations.sort_by_key(|v| v.case);
     (merged, ends)
+}
+
+pub fn run_sharded(ctx: &Ctx, nshards: u64, threads: usize, _exe: Option<&str>, extra_env: &[(String, String)], tag: &str) -> (Local, Vec<ShardEnd>) {
+    let timeout = if ctx.tier == Tier::Quick { 600 } else { 7200 };
+    run_sharded_with(ctx, nshards, threads, &[], extra_env, tag, timeout)
 }
 
 pub struct Report {
